@@ -106,6 +106,29 @@ func (m *natsConnectionMonitor) SetStatus(status ConnectionStatus) {
 	m.status.Store(status)
 }
 
+// CompareAndSwapStatus replaces the status only if it still has the expected value.
+func (m *natsConnectionMonitor) CompareAndSwapStatus(old, new ConnectionStatus) bool {
+	return m.status.CompareAndSwap(old, new)
+}
+
+// promoteReconnected moves a monitor from RECONNECTED to CONNECTED and reports
+// whether it did. The transition has to be atomic: a disconnect notification can be
+// handled between a separate Status() test and SetStatus(), and its DISCONNECTED
+// status (which keeps the new grace period armed) must not be overwritten. Monitors
+// that cannot swap atomically fall back to test-then-set.
+func promoteReconnected(m ConnectionMonitor) bool {
+	if cas, ok := m.(interface {
+		CompareAndSwapStatus(old, new ConnectionStatus) bool
+	}); ok {
+		return cas.CompareAndSwapStatus(ConnectionStatusReconnected, ConnectionStatusConnected)
+	}
+	if m.Status() != ConnectionStatusReconnected {
+		return false
+	}
+	m.SetStatus(ConnectionStatusConnected)
+	return true
+}
+
 func (m *natsConnectionMonitor) handleDisconnect(nc *nats.Conn) {
 	m.status.Store(ConnectionStatusDisconnected)
 
@@ -336,8 +359,7 @@ func (e *kvElection) verifyLeadershipAfterReconnect() {
 	// Only a connection that is still in the RECONNECTED state is promoted to
 	// CONNECTED: a disconnect (or close) that arrived while the verification was
 	// running has armed a new grace period, which must not be defused here.
-	if e.connectionMonitor != nil && e.connectionMonitor.Status() == ConnectionStatusReconnected {
-		e.connectionMonitor.SetStatus(ConnectionStatusConnected)
+	if e.connectionMonitor != nil && promoteReconnected(e.connectionMonitor) {
 		// Update connection status metric
 		if e.cfg.Metrics != nil {
 			e.cfg.Metrics.SetConnectionStatus(1, e.getMetricsLabels())
